@@ -465,20 +465,37 @@ def r6(repo, res):
                get_rsid=lambda m, default=True: {F1: "rs1", S1: "rs2"}.get(Mut(*m), f"{m[0] + 1}.{m[1]}" if default else "-"))
     sol = [Obj(major="1", minor="1.002", added=[], missing=[]), Obj(major="3", minor="3.001", added=[], missing=[])]
     minors = [Obj(solution=sol, get_major_diplotype=lambda: "*1 / *3")]
-    support = {F1: 11, S1: 12, S2: 9}
+    support = {F1: 11, S1: 12, S2: 0}  # S2 is carried although no read covers its position: it is reported all the same
     out = []
 
     def pr(*a, sep=" ", end="\n", file=None):
         out.append(sep.join(str(x) for x in a))
 
-    def hook(node, ev):
-        if isinstance(node, ast.Subscript) and isinstance(node.value, ast.Name) and node.value.id == "coverage":
-            return support.get(ev.ev(node.slice), 0)
-        return NotImplemented
+    class Cov:
+        _fold_ok = True
 
+        def __getitem__(self, m):
+            return support.get(Mut(*m), 0)
+
+        def coverage(self, m):
+            return support.get(Mut(*m), 0)
+
+        def total(self, m):
+            pos = m if isinstance(m, int) else m[0]
+            return sum(v for k_, v in support.items() if k_.pos == pos)
+
+        def percentage(self, m):
+            t = self.total(m)
+            return 100.0 * self[m] / t if t else 0
+
+    params = [a.arg for a in f.args.args]
+    env = {"sample": "S", "gene": gene, "minors": minors, "f": "FILE", "version": "0", "coverage": Cov()}
+    unknown = [a for a in params if a not in env]
+    if unknown:
+        res.err("C12.R6", f"write_vcf has parameters the analysis does not know: {unknown}")
+        return
     try:
-        k, v = Evaluator({"sample": "S", "gene": gene, "minors": minors, "f": "FILE", "version": "0"},
-                         funcs={"print": pr, "td": lambda t: t, "collections.defaultdict": _c.defaultdict}, hook=hook).run(
+        k, v = Evaluator(env, funcs={"print": pr, "td": lambda t: t, "collections.defaultdict": _c.defaultdict}).run(
             [s_ for s_ in f.body if not (isinstance(s_, ast.Expr) and isinstance(s_.value, ast.Constant))])
     except (Unfoldable, Raised) as e:
         res.err("C12.R6", f"write_vcf outside the folding language: {e}")
@@ -487,7 +504,7 @@ def r6(repo, res):
     head = out[0].splitlines()[-1].split("\t") if out else []
     want = [["22", "151", "rs2", "T", "A", "1|0", "12", "*1,-", "*1.002,-"],
             ["22", "251", "rs1", "C", "T", "0|1", "11", "-,*3", "-,*3.001"],
-            ["22", "351", "-", "G", "A", "0|1", "9", "-,*3", "-,*3.001"]]
+            ["22", "351", "-", "G", "A", "0|1", "0", "-,*3", "-,*3.001"]]
     got = []
     for r in recs:
         if len(r) >= 10:
